@@ -59,6 +59,10 @@ def runs(p):
         real = [rs.data.time_split(tm, active_timeout=act, inactive_timeout=inact, closing_mapper=cl,
                                    include_closing_item=p['include'], pipeline=inner_real)]
         ref = [R.TimeSplit(tm, act, inact, cl, p['include'], inner_ref)]
+        if p.get('after'):
+            # a completion-triggered consumer after time_split on the same key: the open window must be flushed before the key's completion is forwarded
+            real = real + [rs.ops.filter(lambda v: v != 0), rs.data.to_list(), rs.ops.map(_lsum)]
+            ref = ref + [R.Filter(lambda v: v != 0), R.Scan(lambda acc, i: acc + [i], list, reduce=True), R.Map(_lsum)]
         if p['ctx'] == 'group':
             real = [rs.ops.group_by(lambda i: 1 if i[2] else 0, real)]
             ref = [R.GroupBy(lambda i: 1 if i[2] else 0, ref)]
@@ -92,5 +96,7 @@ def obligations(tier, seed):
         for n in ((3,) if q else (3, 4)):
             obs.append(Ob(PROP, 'runs', dict(n=n, act='sym', inact='sym', closing=closing, include=include, ctx='group'), budget=400 if q else 1800,
                           bound=dict(items=n, groups=2)))
+    for ctx in ('root', 'group'):
+        obs.append(Ob(PROP, 'runs', dict(n=3, act='sym', inact='sym', closing=False, include=True, ctx=ctx, after=True), budget=400 if q else 1800, bound=dict(items=3, ctx=ctx, consumer_after_time_split=True)))
     obs.append(Ob(PROP, 'runs', dict(n=3, act='sym', inact='sym', closing=True, include=True, ctx='root', _twin='reach'), budget=60, expect='refute'))
     return obs
